@@ -2,10 +2,12 @@
 package main
 
 import (
+	"encoding/json"
 	"fmt"
 	"os"
 	"path/filepath"
 	"strconv"
+	"strings"
 	"time"
 
 	"verif/harness/vk"
@@ -36,10 +38,18 @@ func main() {
 		}
 	}
 	env := &vk.Env{ID: id, Seed: seed, Start: time.Now()}
+	theEnv = env
 	env.Tier = os.Args[2]
 	if os.Args[2] == "--replay" {
 		env.Tier = "quick"
 		env.Replay = os.Args[3]
+	}
+	if os.Args[2] == "--crashed" && len(os.Args) >= 5 {
+		// `check` starts the driver a second time after it died, only to read the log of the first run
+		env.Tier = os.Args[4]
+		env.Out = filepath.Join(vk.Root, "out", fmt.Sprintf("%s-%s-%d-%d", id, env.Tier, seed, os.Getpid()))
+		os.MkdirAll(env.Out, 0o755)
+		crashed(env, os.Args[3])
 	}
 	env.Out = filepath.Join(vk.Root, "out", fmt.Sprintf("%s-%s-%d-%d", id, env.Tier, seed, os.Getpid()))
 	os.MkdirAll(env.Out, 0o755)
@@ -53,9 +63,76 @@ func main() {
 			fmt.Println("INFRA no replay for", id)
 			os.Exit(2)
 		}
+		// a finding that has no smaller reproduction than the run itself (a panic inside a goroutine of a concurrent
+		// scenario) is replayed by running the same tier with the same seed again
+		var rr struct {
+			Replay struct {
+				Kind string `json:"kind"`
+				Seed int64  `json:"seed"`
+				Tier string `json:"tier"`
+			} `json:"replay"`
+		}
+		if json.Unmarshal(b, &rr) == nil && rr.Replay.Kind == "rerun" {
+			env.Seed, env.Tier, env.Replay = rr.Replay.Seed, rr.Replay.Tier, ""
+			d.run(env)
+			finish(env)
+		}
 		d.replay(env, b)
-		os.Exit(env.Finish())
+		finish(env)
 	}
 	d.run(env)
-	os.Exit(env.Finish())
+	finish(env)
+}
+
+// finish leaves a marker so that `check` can tell an exit status 2 chosen by the driver (inconclusive) from the Go runtime's
+// own exit status 2 (an unrecovered panic of some goroutine: the driver died without a verdict).
+func finish(env *vk.Env) {
+	rc := env.Finish()
+	if m := os.Getenv("VERIF_DONE_MARK"); m != "" {
+		os.WriteFile(m, []byte(fmt.Sprint(rc)), 0o644)
+	}
+	os.Exit(rc)
+}
+
+// crashed reads the output of a driver run that died with a Go panic. A panic whose first non-standard-library frame is
+// the library's, in a goroutine the harness could not guard (one the library started itself), is reported; everything
+// else (a harness bug, a runtime fatal error without such a frame, an out-of-memory kill) stays without verdict.
+func crashed(env *vk.Env, logPath string) {
+	b, err := os.ReadFile(logPath)
+	if err != nil {
+		env.Infra("crash log: %v", err)
+		finish(env)
+	}
+	log := "\n" + string(b)
+	i := strings.LastIndex(log, "\npanic: ")
+	if i < 0 {
+		if j := strings.LastIndex(log, "\nfatal error: "); j >= 0 {
+			env.Infra("the first run died with a runtime fatal error: %s", vkTrunc(log[j+1:], 1500))
+		} else {
+			env.Infra("the first run died without a Go panic in its output")
+		}
+		finish(env)
+	}
+	msg := log[i+1:]
+	if k := strings.Index(msg, "\n"); k > 0 {
+		msg = msg[:k]
+	}
+	// the panicking goroutine's stack follows the message; frames are "pkg.func(args)" lines followed by a tab line
+	stack := log[i+1:]
+	if k := strings.Index(stack, "\n\ngoroutine "); k >= 0 {
+		rest := stack[k+2:]
+		if e := strings.Index(rest, "\n\n"); e >= 0 {
+			rest = rest[:e]
+		}
+		stack = "panic(\n" + rest
+	}
+	lib, frame := panicOrigin(stack)
+	if !lib {
+		env.Infra("the first run died with %s; first frame that is not the standard library's: %s (not the library's)", msg, frame)
+		finish(env)
+	}
+	env.Cov.Rule = "crash analysis of a driver run that died: the Go panic in its output came out of a goroutine started by the library itself"
+	env.Report(fmt.Sprintf("the library panicked in a goroutine of its own and ended the process (first library frame %s)", frame),
+		fmt.Sprintf("%s\n%s", msg, vkTrunc(stack, 3000)), map[string]any{"kind": "rerun", "seed": env.Seed, "tier": env.Tier})
+	finish(env)
 }
